@@ -1,4 +1,330 @@
-import LcdbModel.Model.Lsm
-import LcdbModel.Model.DbIter
+/-
+  C19 — repair (`ldb_repair`, repair.c).
+
+  `repairState c files` is the database right after repair + open: every surviving table sits in
+  level 0 under its ORIGINAL file number, `lastSeq` is the largest sequence found in any table,
+  `nextFile` is above every number on disk.
+
+  Proved here
+  * repair neither loses nor invents entries (`repair_entries`, `mem_allEntries_repairState`), so the
+    merged view -- and with it the user iterator's specification `visibleMap` -- is that of the surviving
+    tables, whatever their numbers (`repair_view_eq`, `repair_iter_newest`, `repair_iter_eq`);
+  * the counters are safe (`repair_counters`); later writes get sequence numbers above everything on
+    disk and take precedence (`write_after_repair_newer`, `write_after_repair_view`);
+  * if file-number order agrees with data age, the repaired state satisfies the full invariant and point
+    lookups are right (`repair_inv_of_agreement`, `repair_get_newest_partial`);
+  * that hypothesis is necessary (`repair_get_stale_witness`): table 8 holding `k ↦ v1 @1` and table 7
+    holding `k ↦ v2 @3` -- what a flush, a second flush above it and a manual compaction of the deeper
+    level that rewrites the old table under a higher number leave behind -- make `get` answer the stale
+    `v1` although the merged view (and the iterator) shows `v2`.   [finding F3]
+
+  Sequence-number ties: `view` prefers the earlier entry on a (user key, sequence) tie, so invariance of
+  `view` under the reordering repair performs needs the surviving tables to be pairwise tie-free
+  (`SeqDisj`; ties *inside* one table -- a value and a deletion at one sequence -- are allowed), or no ties
+  at all (`KeyNoTies`).  Under the hypotheses of `repair_inv_of_agreement` the former follows.
+-/
+import LcdbModel.Lemmas.Repair
+import LcdbModel.Props.C14
 namespace Lcdb.C19
+open Lcdb
+
+/-! ### 1. repair neither loses nor invents entries -/
+
+theorem repair_entries (c : Cmp) (files : List FileMeta) :
+    (allEntries (repairState c files)).Perm (files.flatMap (·.run)) := by
+  rw [allEntries_repairState]
+  exact (repairLevel0_perm c files).flatMap_right _
+
+theorem mem_allEntries_repairState {c : Cmp} {files : List FileMeta} {e : Entry} :
+    e ∈ allEntries (repairState c files) ↔ ∃ f ∈ files, e ∈ f.run := by
+  rw [(repair_entries c files).mem_iff, List.mem_flatMap]
+
+theorem mem_allFiles_repairState {c : Cmp} {files : List FileMeta} {f : FileMeta} :
+    f ∈ allFiles (repairState c files) ↔ f ∈ files := Lcdb.mem_allFiles_repairState
+
+/-- pairwise tie-freeness of the surviving tables: no two different tables share a (user key, sequence) -/
+abbrev TablesSeqDisj (c : Cmp) (files : List FileMeta) : Prop :=
+  files.Pairwise (fun f g => Lsm.SeqDisj c f.run g.run)
+
+theorem repair_newestVisible_eq (c : Cmp) (files : List FileMeta) (k : Bytes) (s : Nat)
+    (hd : TablesSeqDisj c files) :
+    newestVisible c (allEntries (repairState c files)) k s
+      = newestVisible c (files.flatMap (·.run)) k s := by
+  rw [allEntries_repairState]
+  exact (Lsm.newestVisible_flatMap_perm c k s (repairLevel0_perm c files).symm hd).symm
+
+/-- the merged view of the repaired database is the merged view of the surviving tables -/
+theorem repair_view_eq (c : Cmp) (files : List FileMeta) (k : Bytes) (s : Nat)
+    (hd : TablesSeqDisj c files) :
+    view c (allEntries (repairState c files)) k s = view c (files.flatMap (·.run)) k s := by
+  unfold view
+  rw [repair_newestVisible_eq c files k s hd]
+
+/-- the same under the other tie-freeness condition (`KeyNoTies`, as in Lemmas/LsmStepsView.lean) -/
+theorem repair_view_eq_of_noTies (c : Cmp) (files : List FileMeta) (k : Bytes) (s : Nat)
+    (hd : KeyNoTies (files.flatMap (·.run))) :
+    view c (allEntries (repairState c files)) k s = view c (files.flatMap (·.run)) k s :=
+  view_congr hd (fun _ _ _ => (repair_entries c files).mem_iff)
+
+/-! ### 2. the user iterator over the repaired state shows the newest surviving value of every key -/
+
+/-- `(k, v)` is in the iterator's map iff `v` is the newest surviving value of `k`; the map is in
+    strictly increasing comparator order (every key at most once) -/
+theorem repair_iter_newest (c : Cmp) (files : List FileMeta) (s : Nat) (hd : TablesSeqDisj c files) :
+    (∀ k v, (k, v) ∈ visibleMap c (allEntries (repairState c files)) s ↔
+        view c (files.flatMap (·.run)) k s = some v) ∧
+    (visibleMap c (allEntries (repairState c files)) s).Pairwise
+        (fun p q => c.compare p.1 q.1 = .lt) := by
+  refine ⟨fun k v => ?_, visibleMap_sorted c _ s⟩
+  rw [mem_visibleMap, repair_view_eq c files k s hd]
+
+/-- ... hence it *is* the map of the surviving tables; file numbers play no role -/
+theorem repair_iter_eq (c : Cmp) (files : List FileMeta) (s : Nat) (hd : TablesSeqDisj c files) :
+    visibleMap c (allEntries (repairState c files)) s = visibleMap c (files.flatMap (·.run)) s :=
+  visibleMap_congr (fun k => repair_view_eq c files k s hd)
+
+/-- every cursor operation of the public iterator API therefore behaves as over the surviving tables -/
+theorem repair_iter_cursor (c : Cmp) (files : List FileMeta) (s : Nat) (hd : TablesSeqDisj c files)
+    (st : DbIterState) (op : IterOp) :
+    mapCursorStep c (visibleMap c (allEntries (repairState c files)) s) st op
+      = mapCursorStep c (visibleMap c (files.flatMap (·.run)) s) st op := by
+  rw [repair_iter_eq c files s hd]
+
+theorem repair_iter_newest_of_noTies (c : Cmp) (files : List FileMeta) (s : Nat)
+    (hd : KeyNoTies (files.flatMap (·.run))) (k : Bytes) (v : String) :
+    (k, v) ∈ visibleMap c (allEntries (repairState c files)) s ↔
+      view c (files.flatMap (·.run)) k s = some v := by
+  rw [mem_visibleMap, repair_view_eq_of_noTies c files k s hd]
+
+/-! ### 3. counters -/
+
+/-- `lastSeq` bounds every sequence on disk, `nextFile` is above every file number (no hypothesis on the
+    tables is needed) -/
+theorem repair_counters (c : Cmp) (files : List FileMeta) :
+    (∀ e ∈ allEntries (repairState c files), e.seq ≤ (repairState c files).lastSeq) ∧
+    (∀ f ∈ allFiles (repairState c files), f.num < (repairState c files).nextFile) := by
+  constructor
+  · intro e he
+    exact seq_le_maxSeqOf ((repair_entries c files).mem_iff.mp he)
+  · intro f hf
+    have := num_le_maxNumOf (Lcdb.mem_allFiles_repairState.mp hf)
+    show f.num < maxNumOf files + 1
+    omega
+
+/-- a write after repair gets sequence numbers above everything on disk -/
+theorem write_after_repair_newer (c : Cmp) (files : List FileMeta) (ops : List WOp) :
+    ∀ x ∈ (applyStep c (repairState c files) (.write ops)).mem,
+      ∀ y ∈ allEntries (repairState c files), y.seq < x.seq := by
+  intro x hx y hy
+  have hy' := (repair_counters c files).1 y hy
+  have hx' : x ∈ applyOps c [] ((repairState c files).lastSeq + 1) ops := hx
+  rcases mem_applyOps.mp hx' with h | h
+  · cases h
+  · have := (mem_opsEntries h).1
+    omega
+
+theorem allEntries_write_repairState (c : Cmp) (files : List FileMeta) (ops : List WOp) :
+    allEntries (applyStep c (repairState c files) (.write ops))
+      = applyOps c [] ((repairState c files).lastSeq + 1) ops ++ allEntries (repairState c files) := by
+  simp [allEntries, applyStep, repairState, allFiles]
+
+/-- ... so new writes take precedence in `view`: the answer for `k` after the batch is the batch's last
+    operation on `k`, or, if there is none, what the repaired database answered -/
+theorem write_after_repair_view (c : Cmp) (files : List FileMeta) (ops : List WOp) (k : Bytes) :
+    view c (allEntries (applyStep c (repairState c files) (.write ops))) k
+        (applyStep c (repairState c files) (.write ops)).lastSeq
+      = applyOpsView c k ops
+          (view c (allEntries (repairState c files)) k (repairState c files).lastSeq) := by
+  rw [allEntries_write_repairState]
+  exact view_applyOps c [] (allEntries (repairState c files)) (repairState c files).lastSeq ops k
+    (fun x hx => (repair_counters c files).1 x (by simpa using hx))
+
+/-! ### 4. if numbering follows age, the repaired state satisfies the invariant -/
+
+theorem tablesSeqDisj_of_agreement {c : Cmp} {files : List FileMeta}
+    (hnums : files.Pairwise (fun f g => f.num ≠ g.num)) (hage : NumberOrderAgreesWithAge c files) :
+    TablesSeqDisj c files := by
+  refine hnums.imp_of_mem ?_
+  intro f g hf hg hne
+  rcases Nat.lt_or_gt_of_ne hne with h | h
+  · exact (Lsm.NewerThan.seqDisj (hage g hg f hf h)).symm
+  · exact Lsm.NewerThan.seqDisj (hage f hf g hg h)
+
+theorem repair_inv_of_agreement (c : Cmp) (files : List FileMeta)
+    (hok : ∀ f ∈ files, FileOk c f)
+    (hkinds : ∀ f ∈ files, ∀ e ∈ f.run, e.kind ≤ 1)
+    (hnums : files.Pairwise (fun f g => f.num ≠ g.num))
+    (hage : NumberOrderAgreesWithAge c files) : Inv c (repairState c files) := by
+  have hnil : ∀ l, 1 ≤ l → (repairState c files).level l = [] :=
+    fun l hl => level_pos_repairState c files hl
+  apply Inv.ofRel
+  · exact levels_length_repairState c files
+  · exact List.Pairwise.nil
+  · intro r hr; cases hr
+  · intro f hf; exact hok f (Lcdb.mem_allFiles_repairState.mp hf)
+  · intro l hl; rw [hnil l hl]; exact List.Pairwise.nil
+  · refine ⟨?_, ?_, ?_, ?_, ?_⟩
+    · intro r hr; cases hr
+    · intro f _; exact newerThan_nil_left c _
+    · intro r hr; cases hr
+    · intro a ha b hb hab
+      rw [level_zero_repairState] at ha hb
+      exact hage a (mem_repairLevel0.mp ha) b (mem_repairLevel0.mp hb) hab
+    · intro i j hij a _ b hb
+      rw [hnil j (by omega)] at hb; cases hb
+  · exact (repair_counters c files).1
+  · intro e he
+    obtain ⟨f, hf, hef⟩ := mem_allEntries_repairState.mp he
+    exact hkinds f hf e hef
+  · apply (numsRel_iff _).mp
+    rw [allFiles_repairState]
+    exact (List.Perm.pairwise_iff (R := fun (f g : FileMeta) => f.num ≠ g.num)
+      (fun h => Ne.symm h) (repairLevel0_perm c files)).mpr hnums
+  · exact (repair_counters c files).2
+  · intro s hs; cases hs
+
+/-- point lookups on the repaired database return the newest surviving value -- under the hypothesis
+    that numbering follows age -/
+theorem repair_get_newest_partial (c : Cmp) (files : List FileMeta)
+    (hok : ∀ f ∈ files, FileOk c f)
+    (hkinds : ∀ f ∈ files, ∀ e ∈ f.run, e.kind ≤ 1)
+    (hnums : files.Pairwise (fun f g => f.num ≠ g.num))
+    (hage : NumberOrderAgreesWithAge c files) (k : Bytes) (s : Nat) :
+    get c (repairState c files) k s = view c (files.flatMap (·.run)) k s := by
+  rw [C01.get_eq_view c _ (repair_inv_of_agreement c files hok hkinds hnums hage) k s]
+  exact repair_view_eq c files k s (tablesSeqDisj_of_agreement hnums hage)
+
+/-- and after a later write: `get` answers the batch's last operation on `k`, else the newest surviving
+    value -/
+theorem write_after_repair_get (c : Cmp) (files : List FileMeta) (ops : List WOp)
+    (hok : ∀ f ∈ files, FileOk c f)
+    (hkinds : ∀ f ∈ files, ∀ e ∈ f.run, e.kind ≤ 1)
+    (hnums : files.Pairwise (fun f g => f.num ≠ g.num))
+    (hage : NumberOrderAgreesWithAge c files)
+    (hops : stepOk c (repairState c files) (.write ops)) (k : Bytes) :
+    get c (applyStep c (repairState c files) (.write ops)) k
+        (applyStep c (repairState c files) (.write ops)).lastSeq
+      = applyOpsView c k ops (view c (files.flatMap (·.run)) k (maxSeqOf files)) := by
+  have hinv := repair_inv_of_agreement c files hok hkinds hnums hage
+  rw [C01.get_eq_view c _ (C14.write_preserves_inv c _ ops hinv hops), write_after_repair_view,
+    repair_view_eq c files k _ (tablesSeqDisj_of_agreement hnums hage)]
+  rfl
+
+/-! ### 5. the hypothesis is necessary: a stale read after repair  [finding F3] -/
+
+section Witness
+
+def wk : Bytes := [107]
+
+/-- file metadata computed from a non-empty run -/
+def mkFile (num : Nat) (run : Run) : FileMeta :=
+  match run.head?, run.getLast? with
+  | some a, some b => ⟨num, run.length, a.ukey, a.packed, b.ukey, b.packed, run⟩
+  | _, _ => ⟨num, 0, [], 0, [], 0, run⟩
+
+/-- the old table, rewritten by a manual compaction of the deeper level under a HIGHER number -/
+def t8 : FileMeta := mkFile 8 [⟨wk, 1, 1, "v1"⟩]
+/-- the newer flush, still under its lower number -/
+def t7 : FileMeta := mkFile 7 [⟨wk, 3, 1, "v2"⟩]
+
+def witFiles : List FileMeta := [t8, t7]
+
+theorem wit_level0 : (repairState .bytewise witFiles).level 0 = [t7, t8] := by decide
+
+theorem wit_cands : l0Candidates .bytewise [t7, t8] wk = [t8, t7] := by
+  have h : [t7, t8].filter (fun f => fileContainsUser .bytewise f wk) = [t7, t8] := by decide
+  unfold l0Candidates
+  rw [h]
+  simp [List.mergeSort, t7, t8, mkFile]
+
+theorem wit_get : get .bytewise (repairState .bytewise witFiles) wk 3 = some "v1" := by
+  unfold get getEntry searchOrder
+  rw [wit_level0, wit_cands]
+  decide
+
+theorem wit_userKeys :
+    userKeys .bytewise (allEntries (repairState .bytewise witFiles)) = [wk] := by
+  have h : (allEntries (repairState .bytewise witFiles)).map (·.ukey) = [wk, wk] := by decide
+  rw [userKeys_eq, h]
+  have h2 : [wk, wk].mergeSort (fun a b => Cmp.bytewise.compare a b != .gt) = [wk, wk] := by
+    have hc : (Cmp.bytewise.compare wk wk != .gt) = true := by decide
+    simp [List.mergeSort, hc]
+  rw [h2]
+  decide
+
+theorem wit_visibleMap :
+    visibleMap .bytewise (allEntries (repairState .bytewise witFiles)) 3 = [(wk, "v2")] := by
+  unfold visibleMap
+  rw [wit_userKeys]
+  decide
+
+/-- **F3**: every condition of `repair_inv_of_agreement` except `NumberOrderAgreesWithAge` holds, the
+    tables are tie-free, the merged view and the iterator show the newest value `v2` -- and `get` answers the
+    stale `v1`; in particular the repaired state violates the invariant -/
+theorem repair_get_stale_witness :
+    (∀ f ∈ witFiles, FileOk .bytewise f) ∧
+    (∀ f ∈ witFiles, ∀ e ∈ f.run, e.kind ≤ 1) ∧
+    witFiles.Pairwise (fun f g => f.num ≠ g.num) ∧
+    TablesSeqDisj .bytewise witFiles ∧ KeyNoTies (witFiles.flatMap (·.run)) ∧
+    ¬ NumberOrderAgreesWithAge .bytewise witFiles ∧
+    get .bytewise (repairState .bytewise witFiles) wk 3 = some "v1" ∧
+    view .bytewise (witFiles.flatMap (·.run)) wk 3 = some "v2" ∧
+    view .bytewise (allEntries (repairState .bytewise witFiles)) wk 3 = some "v2" ∧
+    visibleMap .bytewise (allEntries (repairState .bytewise witFiles)) 3 = [(wk, "v2")] ∧
+    ¬ Inv .bytewise (repairState .bytewise witFiles) := by
+  have hv : view .bytewise (allEntries (repairState .bytewise witFiles)) wk 3 = some "v2" := by decide
+  refine ⟨by decide, by decide, by decide, ?_, by decide, ?_, wit_get, by decide, hv,
+    wit_visibleMap, ?_⟩
+  · unfold TablesSeqDisj Lsm.SeqDisj; decide
+  · unfold NumberOrderAgreesWithAge; decide
+  · intro hinv
+    have := C01.get_eq_view _ _ hinv wk 3
+    rw [wit_get, hv] at this
+    exact absurd this (by decide)
+
+-- the interpreter agrees (build-time sanity check, not a proof)
+#guard get .bytewise (repairState .bytewise witFiles) wk 3 == some "v1"
+#guard visibleMap .bytewise (allEntries (repairState .bytewise witFiles)) 3 == [(wk, "v2")]
+
+end Witness
+
+/-! ### 6. non-vacuity of `repair_inv_of_agreement`: two tables whose numbering follows age -/
+
+section NonVacuity
+
+def wk2 : Bytes := [108]
+
+/-- older table: `k ↦ v1 @1`, `l ↦ w1 @2` -/
+def u7 : FileMeta := mkFile 7 [⟨wk, 1, 1, "v1"⟩, ⟨wk2, 2, 1, "w1"⟩]
+/-- newer table, higher number: `k ↦ v2 @3`, a value and a deletion of `l` at sequence 4 -/
+def u8 : FileMeta := mkFile 8 [⟨wk, 3, 1, "v2"⟩, ⟨wk2, 4, 1, "w2"⟩, ⟨wk2, 4, 0, ""⟩]
+
+def okFiles : List FileMeta := [u7, u8]
+
+theorem okFiles_hyps :
+    (∀ f ∈ okFiles, FileOk .bytewise f) ∧
+    (∀ f ∈ okFiles, ∀ e ∈ f.run, e.kind ≤ 1) ∧
+    okFiles.Pairwise (fun f g => f.num ≠ g.num) ∧
+    NumberOrderAgreesWithAge .bytewise okFiles := by
+  refine ⟨by decide, by decide, by decide, ?_⟩
+  unfold NumberOrderAgreesWithAge; decide
+
+theorem okFiles_inv : Inv .bytewise (repairState .bytewise okFiles) :=
+  repair_inv_of_agreement _ _ okFiles_hyps.1 okFiles_hyps.2.1 okFiles_hyps.2.2.1 okFiles_hyps.2.2.2
+
+theorem okFiles_get :
+    get .bytewise (repairState .bytewise okFiles) wk 4 = some "v2" ∧
+    get .bytewise (repairState .bytewise okFiles) wk 2 = some "v1" ∧
+    get .bytewise (repairState .bytewise okFiles) wk2 4 = some "w2" ∧
+    get .bytewise (repairState .bytewise okFiles) wk2 3 = some "w1" := by
+  refine ⟨?_, ?_, ?_, ?_⟩ <;>
+    (rw [repair_get_newest_partial _ _ okFiles_hyps.1 okFiles_hyps.2.1 okFiles_hyps.2.2.1
+      okFiles_hyps.2.2.2]; decide)
+
+#guard get .bytewise (repairState .bytewise okFiles) wk 4 == some "v2"
+#guard invCheck .bytewise (repairState .bytewise okFiles) == none
+#guard invCheck .bytewise (repairState .bytewise witFiles) == some "recency"
+
+end NonVacuity
+
 end Lcdb.C19
